@@ -143,6 +143,41 @@ func init() {
 			}
 			return r
 		},
+		zz + "Quiesce": func(fr *frame, args []value) value {
+			fr.i.quiesceNow(fr)
+			return nil
+		},
+		zz + "GoroutinesBlocked": func(fr *frame, args []value) value {
+			n := 0
+			if fr.i.sched != nil {
+				for _, g := range fr.i.sched.gs {
+					if g != fr.i.curG && !g.done {
+						n++
+					}
+				}
+			}
+			return n
+		},
+		// ---- virtual timers ----
+		"time.AfterFunc": func(fr *frame, args []value) value {
+			d := asInt64(args[0])
+			t := fr.i.afterFunc(d, args[1])
+			// *time.Timer: a zero Timer object whose identity maps to the virtual timer
+			var cell value = zero(deref(fr.fn.Signature.Results().At(0).Type()))
+			p := &cell
+			fr.i.timerOf[p] = t
+			return p
+		},
+		"(*time.Timer).Stop": func(fr *frame, args []value) value {
+			p, _ := args[0].(*value)
+			t := fr.i.timerOf[p]
+			if t == nil {
+				panic(fr.i.unsupported("Stop on a timer not created by time.AfterFunc"))
+			}
+			was := !t.stopped && !t.fired
+			t.stopped = true
+			return was
+		},
 		zz + "IsSymbolic": func(fr *frame, args []value) value { return true },
 		zz + "Reset":      func(fr *frame, args []value) value { return nil },
 
@@ -365,7 +400,7 @@ func init() {
 		"(*internal/godebug.Setting).IncNonDefault": func(fr *frame, args []value) value { return nil },
 		"internal/cpu.Initialize":  func(fr *frame, args []value) value { return nil },
 		"runtime.fastrand":         nil,
-		"errors.Is": nil,
+		"errors.Is": func(fr *frame, args []value) value { return fr.i.errorsIs(fr, args[0].(iface), args[1].(iface), 0) },
 
 		// ---- math/bits fast paths handled by source; these have pure Go bodies ----
 
@@ -649,4 +684,56 @@ func (i *Interp) randBelow(n value, k types.BasicKind, kind string) value {
 	zero := c.Eq(nt, c.BVConst(0, kindWidth(k)))
 	i.assume(c.Or(c.And(zero, c.Eq(xt, c.BVConst(0, kindWidth(k)))), c.BVUlt(xt, nt)))
 	return x
+}
+
+// errorsIs models errors.Is without reflection: identity (comparable dynamic types), an Is(error) bool
+// method, then Unwrap() error / Unwrap() []error, as the standard library does.
+func (i *Interp) errorsIs(fr *frame, err, target iface, depth int) bool {
+	if err.t == nil || target.t == nil {
+		return err.t == nil && target.t == nil
+	}
+	if depth > 32 {
+		panic(i.unsupported("errors.Is: unwrap chain too deep"))
+	}
+	if types.Identical(err.t, target.t) && types.Comparable(err.t) {
+		if i.decide(i.equalsT(err.t, err.v, target.v)) {
+			return true
+		}
+	}
+	ms := i.prog.MethodSets.MethodSet(err.t)
+	for j := 0; j < ms.Len(); j++ {
+		sel := ms.At(j)
+		sig, _ := sel.Type().(*types.Signature)
+		if sig == nil {
+			continue
+		}
+		switch sel.Obj().Name() {
+		case "Is":
+			if sig.Params().Len() == 1 && sig.Results().Len() == 1 {
+				r := call(i, fr, token.NoPos, i.prog.MethodValue(sel), []value{err.v, target})
+				if i.decideValue(r) {
+					return true
+				}
+			}
+		}
+	}
+	for j := 0; j < ms.Len(); j++ {
+		sel := ms.At(j)
+		sig, _ := sel.Type().(*types.Signature)
+		if sig == nil || sel.Obj().Name() != "Unwrap" || sig.Params().Len() != 0 || sig.Results().Len() != 1 {
+			continue
+		}
+		r := call(i, fr, token.NoPos, i.prog.MethodValue(sel), []value{err.v})
+		switch rv := r.(type) {
+		case iface:
+			return i.errorsIs(fr, rv, target, depth+1)
+		case []value:
+			for _, e := range rv {
+				if ei, ok := e.(iface); ok && i.errorsIs(fr, ei, target, depth+1) {
+					return true
+				}
+			}
+		}
+	}
+	return false
 }
